@@ -9,7 +9,7 @@
 #[verifier::reject_recursive_types(Data)]
 //@ enditem
 
-//@ region loop_slice_specs props=C15,C06,C01
+//@ region loop_slice_specs props=C15,C06,C01,C16,C07,C09,C14,C02
 /// ASSUMPTION carrier surfaced from the dispatcher layer (DESIGN 1.3): wrapped sources accept the calls.
 pub closed spec fn all_accept<Data>() -> bool {
     forall|d: Rc<dyn EventDispatcher<Data>>| #[trigger] d.accepts_calls()
@@ -61,18 +61,53 @@ fn register_dispatcher_after_borrows<S>(&self, sources: &mut SourceList<'l, Data
 //@ enditem
 
 impl<'l, Data> EventLoop<'l, Data> {
-//@ slice src/loop_logic.rs / impl EventLoop<'l, Data> / fn dispatch_events :: loopbody <<for event in>> props=C09,C01,C14,C06 name=EventLoop::dispatch_events::per_event_body
+//@ slice src/loop_logic.rs / impl EventLoop<'l, Data> / fn dispatch_events :: loopbody <<for event in>> props=C09,C01,C14,C06,C02,C15,C16,C07 name=EventLoop::dispatch_events::per_event_body
+//@ rw R10 1/2 <<self.handle.inner.sources.borrow()>> => <<sources_at_lookup>>
+//@ rw R10 2/2 <<self.handle.inner.sources.borrow()>> => <<sources>>
+//@ rw R10 1 <<self.handle.inner.sources.borrow_mut()>> => <<sources>>
+//@ rw R10 2 <<&mut self.handle.inner.poll.borrow_mut()>> => <<&mut *poll>>
+//@ rw R10 1 <<= self.handle.inner.poll.borrow_mut();>> => <<= &mut *poll;>>
+//@ rw R10 3 <<self .handle .inner .sources_with_additional_lifecycle_events .borrow_mut()>> => <<*extra>>
+//@ closure <<|entry| entry.source.clone()>>
+-> (c: Option<Rc<dyn EventDispatcher<Data> + 'l>>) ensures c == entry.disp()
+//@ closure <<|entry| entry.source.is_none()>>
+-> (b: bool) ensures b == entry.vacant()
 //@ sig
 /// S1 slice of EventLoop::dispatch_events: the body of the `for event in ..` loop (one event of the batch).
 /// Free variables `event`, `data`, `self` become parameters; the loop head (Vec::drain().chain(), unsupported by
-/// Verus) and everything before it are dropped. All loop state lives in RefCells/Cells behind `&self` and is
-/// OPAQUE here (DESIGN 1.4): what is decided are the obligations at call sites and the local data flow.
-fn dispatch_events_per_event_body(&mut self, event: PollEvent, data: &mut Data) -> (r: crate::Result<()>)
+/// Verus) and everything before it are dropped. Rule R10: each RefCell borrow of a loop cell becomes a parameter
+/// standing for the borrowed value: `sources_at_lookup` is the slot list as it is when the event is looked up
+/// (BEFORE user code runs in process_events), `sources` is the slot list as it is when the post-action is applied
+/// (AFTER process_events -- user code may have changed it arbitrarily in between, hence two unrelated parameters);
+/// `poll`/`extra` are borrowed only after process_events has returned.
+fn dispatch_events_per_event_body(&mut self, sources_at_lookup: &SourceList<'l, Data>, sources: &mut SourceList<'l, Data>, mut poll: &mut Poll, extra: &mut AdditionalLifecycleEventsSet, event: PollEvent, data: &mut Data) -> (r: crate::Result<()>)
 //@ spec
-    requires all_accept::<Data>(),
+    requires all_accept::<Data>(), sources_at_lookup.wf(), old(sources).wf(),
+    ensures
+        final(sources).wf(), final(sources)@.len() == old(sources)@.len(),
+        // C09 / C01: whatever the source returned or requested, nothing is applied to ANY OTHER source: every other
+        // slot keeps its dispatcher and generation, every other entry of the lifecycle set stays
+        forall|k: int| 0 <= k < old(sources)@.len() && k != event.token.inner.forget().sid() ==> #[trigger] final(sources)@[k] == old(sources)@[k],
+        event.token.inner.forget().sid() < old(sources)@.len() ==> final(sources)@[event.token.inner.forget().sid()].tok() == old(sources)@[event.token.inner.forget().sid()].tok(),
+        extra_frame(old(extra), final(extra), RegistrationToken::of(event.token.inner.forget())),
+        // C01 / C06: an event whose (generation-checked) token addresses no occupied slot -- a removed source, or a
+        // slot that has since been reused -- is dropped without touching anything
+        (sources_at_lookup.lookup(event.token.inner.forget()) is None || sources_at_lookup@[event.token.inner.forget().sid()].vacant())
+            ==> r is Ok && final(sources)@ == old(sources)@ && final(extra)@ == old(extra)@,
+        // C02: an event for a live source IS handed to that source's dispatcher (must-call witness) ...
+        sources_at_lookup.lookup(event.token.inner.forget()) is Some ==> (sources_at_lookup@[event.token.inner.forget().sid()].disp() matches Some(d) ==> {
+            &&& d.w_processed(event.readiness, event.token)
+            // C06: ... and if the source is gone from its slot when processing is over (it removed itself, returned
+            // Remove, or the slot was reused meanwhile) it has been asked to unregister before the loop lets go of it
+            &&& (r is Ok && (final(sources).lookup(event.token.inner.forget()) is None || final(sources)@[event.token.inner.forget().sid()].vacant()))
+                    ==> d.w_unregister_called(RegistrationToken::of(event.token.inner.forget()))
+        }),
 //@ entry
     // ghost state: has the loop-global deferred-action cell been reset for this event, and what was in it
     let ghost mut reset_done = false;
+    let ghost sources0 = *sources;
+    let ghost extra0 = *extra;
+    proof { broadcast use RegistrationToken::lemma_of, TokenInner::lemma_forget_idem, TokenInner::lemma_forget; }
 //@ before <<let mut ret =>>
             // C09 ("...including when event processing returns an error"): the cell is reset BEFORE a processing
             // error can be propagated out of this body (defect F3, fixed in 0605ec0)
@@ -89,7 +124,14 @@ fn dispatch_events_per_event_body(&mut self, event: PollEvent, data: &mut Data) 
             assert(!(ret0 is Continue) ==> ret == ret0); /*@props C09*/
             // C01/C09/C14: every action below is applied to the source the event belongs to: the lookup key and the
             // registration token handed to reregister/unregister are the event token with the sub-id cleared
-            assert(reg_token == event.token.inner.forget()); /*@props C01,C09,C14*/
+            assert(reg_token == event.token.inner.forget()); /*@props C01,C09,C14,C07*/
+//@ after <<match ret {>>
+            // C09: the effective action has been applied by now, to this source: Reregister re-registers (or is
+            // answered "deferred"), Disable asks it to unregister, Remove empties its slot, Continue changes nothing
+            assert(ret is Reregister ==> disp.w_reregistered(RegistrationToken::of(reg_token)) || disp.w_deferred()); /*@props C09*/
+            assert(ret is Disable ==> disp.w_unregister_called(RegistrationToken::of(reg_token))); /*@props C09,C07*/
+            assert(ret is Remove ==> sources.lookup(reg_token) is None || sources@[reg_token.sid()].vacant()); /*@props C09,C06*/
+            assert(ret is Continue ==> *sources == sources0 && *extra == extra0); /*@props C09*/
 //@ tail
     Ok(())
 //@ endslice
